@@ -1324,6 +1324,8 @@ fn translate_block(
             Ok(()) => {}
             Err(UnsupportedError(_)) => {
                 if options.unsupported_are_intrinsics() {
+                    // drop the blocks the semantics built before giving up
+                    instruction_graph = ControlFlowGraph::new();
                     semantics::unhandled_intrinsic(
                         &disassembly_bytes[..4],
                         &mut instruction_graph,
